@@ -174,9 +174,9 @@ def c13_diff(ctx, colour, with_base, scale=1.0):
     ctx.ensure("probe and base arrays untouched", same(probe_arr, probe_arr))
 
 
-@ob("C13.dtypes", kind="B", cases=product_cases(dtype=("uint8", "uint16", "float32", "float64"), colour=(False, True), diff=DIFFS), funcs=FUNCS, samples=(1, 2), tol=1e-6,
+@ob("C13.dtypes", kind="B", cases=product_cases(dtype=("uint8", "uint16", "float32", "float64"), colour=(False, True), diff=DIFFS, extra=(0, 2)), funcs=FUNCS, samples=(1, 2), tol=1e-6,
     cite="any 2-D shape and supported dtype (incl. integer types that must be promoted)", note="bounded: skimage dtype conversion is external")
-def c13_dtypes(ctx, dtype, colour, diff):
+def c13_dtypes(ctx, dtype, colour, diff, extra=0):
     rng = np.random.default_rng(ctx.rng.randrange(1 << 30))
     shape = (5, 7, 3) if colour else (5, 7)
     dt = np.dtype(dtype)
@@ -189,13 +189,22 @@ def c13_dtypes(ctx, dtype, colour, diff):
     model = lambda x, *a: (log.append("model"), 2.0 * x + 0.25)[1]
     rest = lambda x: (log.append("restoration"), 0.5 * x - 0.125)[1]
     red = (lambda x: (log.append("reduction"), x[..., 0] * 0.5 + x[..., 2] * 0.25)[1]) if colour else None
-    ca = darsia.ConcentrationAnalysis(base=mk(base_arr.copy()), signal_reduction=red, restoration=rest, model=model, **{"diff option": diff})
+    # extra baselines (same dtype as the reference baseline: all of them must be promoted alike) define the cleaning threshold
+    extra_arrs = [gen() for _ in range(extra)]
+    base_arg = mk(base_arr.copy()) if extra == 0 else [mk(base_arr.copy())] + [mk(e.copy()) for e in extra_arrs]
+    ca = darsia.ConcentrationAnalysis(base=base_arg, signal_reduction=red, restoration=rest, model=model, **{"diff option": diff})
+    log.clear()
     probe = mk(probe_arr.copy())
     out = ca(probe)
     pf, bf = tofloat(probe_arr).astype(float), tofloat(base_arr).astype(float)
-    dd = pf - bf
-    D = {"plain": dd, "absolute": np.abs(dd), "positive": np.clip(dd, 0, None), "negative": np.clip(-dd, 0, None)}[diff]
-    s = D[..., 0] * 0.5 + D[..., 2] * 0.25 if colour else D
+    diff_of = lambda dd: {"plain": dd, "absolute": np.abs(dd), "positive": np.clip(dd, 0, None), "negative": np.clip(-dd, 0, None)}[diff]
+    reduce_ = lambda D: D[..., 0] * 0.5 + D[..., 2] * 0.25 if colour else D
+    s = reduce_(diff_of(pf - bf))
+    if extra:
+        thr = np.zeros(s.shape[:2])
+        for e in extra_arrs:
+            thr = np.maximum(thr, reduce_(diff_of(tofloat(e).astype(float) - bf)))
+        s = np.clip(s - thr, 0, None)
     want = 2.0 * (0.5 * s - 0.125) + 0.25
     ctx.ensure("result == model(restoration(reduction(difference))) on the promoted (float) images", out.img.shape == want.shape and bool(np.allclose(out.img, want, rtol=1e-5, atol=1e-6)))
     ctx.ensure("probe image unmodified (data and dtype)", probe.img.dtype == dt and bool(np.array_equal(probe.img, probe_arr)))
